@@ -394,8 +394,8 @@ def run(ctx):
     batch += [('boundary', s) for s in boundary_suite(range(23, 23 + ctx.n(2, 60), 1), True)]
     batch += [('requests', gen_scenario(rng, k, 60)) for k in range(ctx.n(26, 1200))]
     batch += [('initiated', gen_initiated_scenario(rng, 40)) for _ in range(ctx.n(10, 400))]
-    batch += [('several-bearers', gen_multi_scenario(rng, k, 70)) for k in range(ctx.n(8, 300))]
-    batch += [('bursts', gen_burst_scenario(rng, k, 24)) for k in range(ctx.n(8, 300))]
+    batch += [('several-bearers', gen_multi_scenario(rng, k, 70)) for k in range(ctx.n(8, 150))]
+    batch += [('bursts', gen_burst_scenario(rng, k, 24)) for k in range(ctx.n(8, 150))]
     for i in range(0, len(batch), 160):
         check_scenarios(ctx, batch[i:i + 160])
     sent = ctx.extra.pop('opcodes_sent', set())
